@@ -14,7 +14,14 @@ static inline vstr_c8* vstr_c8_append__rkvstr_c8(vstr_c8* s, const vstr_c8* o) {
 static inline void vstr_c8_clear(vstr_c8* s) { s->clears++; s->size = 0; s->n = 0; }
 static inline void vstr_c8_reserve__u64(vstr_c8* s, unsigned long n) { (void)s; (void)n; }
 static inline size_t vstr_c8_size___k(const vstr_c8* s) { return s->size; }
+typedef struct { int _opaque; } vostream;
+typedef struct { int _opaque; } vstr_c16; typedef struct { int _opaque; } vstr_c32;
+typedef struct { int _opaque; } std_variant_vpair_Utf8_vstr_c8_vpair_Utf16Le_vstr_c16_vpair_Utf16Be_vstr_c16_vpair_Utf32Le_vstr_c32_vpair_Utf32Be_vstr_c32;
+static inline _Bool vstr_c8_empty___k(const vstr_c8* s) { return s->size == 0; }
 #include "gen.h"
+/* contract of CEncodedStreamWriter::Write (proved in encoded_stream_writer): the whole text goes to the stream, or an encoding error is reported; every call is logged */
+static unsigned g_sw_n; static const vstr_c8* g_sw_str[3]; static unsigned g_sw_events[3]; static int g_sw_fail_at;
+int CEncodedStreamWriter_Write_c8_valloc_c8__rkvstr_c8(struct CEncodedStreamWriter* self, const vstr_c8* str) { (void)self; if (g_sw_n < 3) { g_sw_str[g_sw_n] = str; g_sw_events[g_sw_n] = str->n; } int rc = ((int)g_sw_n == g_sw_fail_at) ? 1 : 0; g_sw_n++; return rc; }
 void WriteEscapedValue__rkvsv_c8_rvstr_c8_kc8(const vsv_c8* v, vstr_c8* out, char sep) { ev(out, EV_ESC, sep, v->data); out->size += nondet_uchar(); }
 #include "gen.c"
 static char g_keytxt[1], g_valtxt[1];
@@ -35,7 +42,28 @@ void h_next_line(void) { W_INIT unsigned long row0 = w.mRowIndex, idx0 = w.mValu
      "a record is committed as [CRLF ending the header line, first record only] + the row's text + CRLF, in this order, nothing else");
   VERIF_ASSERT("C09", mismatch || (w.mRowIndex == row0 + 1 && w.mValueIndex == 0 && w.mCurrentRow.clears == 1 && w.mCurrentRow.size == 0 && w.mPrevValuesCount == (first ? idx0 : prev0)), "after a record the row buffer is empty, the field counter restarts and the first record's field count is remembered");
   VERIF_CANARY(); }
+/* ---- CCsvStreamWriter (src/csv/csv_writers.cpp:124-190): the same record protocol, header and row are sent through the encoding stream writer ---- */
+#define SW_INIT struct CCsvStreamWriter w; w.mCsvHeader.n = 0; w.mCsvHeader.clears = 0; w.mCsvHeader.size = nondet_size_t(); __CPROVER_assume(w.mCsvHeader.size < ((size_t)1 << 50)); w.mCurrentRow.n = 0; w.mCurrentRow.clears = 0; w.mCurrentRow.size = nondet_size_t(); __CPROVER_assume(w.mCurrentRow.size < ((size_t)1 << 50)); \
+  w.mWithHeader = nondet_bool(); w.mSeparator = nondet_char(); w.mRowIndex = nondet_ulong(); w.mValueIndex = nondet_ulong(); w.mPrevValuesCount = nondet_ulong(); __CPROVER_assume(w.mRowIndex < (1ul << 60) && w.mValueIndex < (1ul << 60)); __verif_exc = 0; g_sw_n = 0; g_sw_fail_at = nondet_int();
+void h_sw_write_value(void) { SW_INIT vsv_c8 key; key.data = g_keytxt; key.size = 1; vsv_c8 val; val.data = g_valtxt; val.size = 1; unsigned long idx0 = w.mValueIndex;
+  CCsvStreamWriter_WriteValue__rkvsv_c8_vsv_c8(&w, &key, val);
+  _Bool hdr = w.mRowIndex == 0 && w.mWithHeader; unsigned lead = idx0 ? 1 : 0; vstr_c8* H = &w.mCsvHeader; vstr_c8* R = &w.mCurrentRow;
+  VERIF_ASSERT("C09,C10", __verif_exc == 0 && w.mValueIndex == idx0 + 1 && g_sw_n == 0, "writing a field raises nothing, counts the field and sends nothing to the stream yet");
+  VERIF_ASSERT("C09,C10", R->n == lead + 1 && (!lead || (R->kind[0] == EV_PUSH && R->ch[0] == w.mSeparator)) && R->kind[lead] == EV_ESC && R->src[lead] == g_valtxt && R->ch[lead] == w.mSeparator, "the field is appended to the current row as [separator unless it is the record's first field - also when the fields before it were empty] + escaped(value), as the in-memory writer does");
+  VERIF_ASSERT("C09,C10", hdr ? (H->n == lead + 1 && (!lead || (H->kind[0] == EV_PUSH && H->ch[0] == w.mSeparator)) && H->kind[lead] == EV_ESC && H->src[lead] == g_keytxt && H->ch[lead] == w.mSeparator) : H->n == 0, "in the first record of a table with header the key is appended to the header line the same way; otherwise the header line is not touched");
+  VERIF_CANARY(); }
+void h_sw_next_line(void) { SW_INIT unsigned long row0 = w.mRowIndex, idx0 = w.mValueIndex, prev0 = w.mPrevValuesCount; vstr_c8* H = &w.mCsvHeader; vstr_c8* R = &w.mCurrentRow;
+  CCsvStreamWriter_NextLine(&w);
+  _Bool first = row0 == 0; _Bool mismatch = !first && idx0 != prev0; unsigned h = (first && w.mWithHeader) ? 1 : 0; _Bool enc_fail = !mismatch && g_sw_fail_at >= 0 && (unsigned)g_sw_fail_at <= h;
+  VERIF_ASSERT("C09,C20", mismatch ? (__verif_exc == EXC_SerializationException && __verif_exc_code == SerializationErrorCode_OutOfRange && g_sw_n == 0 && w.mRowIndex == row0) : 1, "a record whose number of fields differs from the first record's is refused with OutOfRange and nothing of it reaches the stream");
+  VERIF_ASSERT("C09,C20", mismatch || (enc_fail ? (__verif_exc == EXC_SerializationException && __verif_exc_code == SerializationErrorCode_UtfEncodingError && w.mRowIndex == row0) : __verif_exc == 0), "an encoding error reported by the stream writer becomes SerializationException(UtfEncodingError) and the record is not counted; otherwise nothing is raised");
+  VERIF_ASSERT("C09,C10", mismatch || !h || (g_sw_n >= 1 && g_sw_str[0] == H && g_sw_events[0] == 2 && H->kind[0] == EV_PUSH && H->ch[0] == '\r' && H->kind[1] == EV_PUSH && H->ch[1] == '\n'), "first record of a table with header: the header line, ended by CRLF, is sent first");
+  VERIF_ASSERT("C09,C10", mismatch || enc_fail || (g_sw_n == h + 1 && g_sw_str[h] == R && g_sw_events[h] == 2 && R->clears == 1), "then exactly the row's text ended by CRLF is sent, once, and the row buffer is cleared afterwards");
+  VERIF_ASSERT("C09", mismatch || enc_fail || (w.mRowIndex == row0 + 1 && w.mValueIndex == 0 && R->size == 0 && w.mPrevValuesCount == (first ? idx0 : prev0)), "after a record the row buffer is empty, the field counter restarts and the first record's field count is remembered");
+  VERIF_CANARY(); }
 /*@jobs
+job entry=h_sw_write_value props=C09,C10,C02 mode=direct unwind=3
+job entry=h_sw_next_line props=C09,C10,C20,C02 mode=direct unwind=3
 job entry=h_write_value props=C09,C02 mode=direct unwind=3
 job entry=h_next_line props=C09,C20,C02 mode=direct unwind=3
 @*/
